@@ -172,6 +172,9 @@ fn step_case(cx: &mut Ctx, rng: &mut Rng, at: At, delta: i64, special: Option<u6
 			}
 		}
 	}
+	if cx.rep.samples.len() < 4 {
+		cx.rep.sample(json!({"step": format!("{:?}", at), "observed_height": h, "cutoff": cutoff.to_string(), "expected": if expect_expired { "refused as expired" } else { "not refused for expiry" }}));
+	}
 	cx.rep.distinct(&(format!("{:?}", at), delta, special.map(|s| if s == 0 { 0 } else if s == 1 { 1 } else { 2 }), expect_expired));
 	cx.cleanup();
 }
@@ -281,6 +284,9 @@ fn refresh_case(cx: &mut Ctx, rng: &mut Rng, role_sender: bool, n_other: usize, 
 				}
 			}
 		}
+	}
+	if cx.rep.samples.len() < 6 {
+		cx.rep.sample(json!({"kind": "refresh", "role": if role_sender { "sender" } else { "recipient" }, "cutoff": cutoff, "tip": tip, "other_pending": other_ids.len(), "others_created_first": others_first}));
 	}
 	cx.rep.distinct(&("refresh", role_sender, n_other, others_first, delta));
 	cx.cleanup();
